@@ -99,6 +99,9 @@ func (fv *FuncVC) oblige(kind, label string, props []string, goal, src string, p
 		Name: fmt.Sprintf("%s#%s#%s", fv.key, kind, label), Func: fv.key, Kind: kind, Label: label,
 		Expect: "unsat", Prefix: len(fv.lines), Goal: goal, Reach: fv.pc, Pos: pos, Src: src, fv: fv, Props: props,
 	}
+	if fv.con != nil && fv.con.Partial && (kind == "call-pre" || kind == "lock" || kind == "alloc-bound") {
+		ob.Abstract = true
+	}
 	// de-duplicate names
 	n := 0
 	for _, o := range fv.obls {
